@@ -607,6 +607,11 @@ def _run_one(pid, h, known):
     for o in res.obls:
         if o['result'] == 'cex':
             by_label.setdefault(o['label'], []).append(o)
+    unk = {}
+    for o in res.obls:
+        if o['result'] == 'unknown':
+            unk[o['label']] = unk.get(o['label'], 0) + 1
+    rep['unknown_labels'] = unk
     rep['cex_labels'] = {}
     for label, lst in sorted(by_label.items()):
         outcome = 'spurious'
@@ -789,6 +794,11 @@ def run_property(pid, harnesses, tier, seed, level='other', explanation='', extr
                 pid, r['harness'], r['paths'], r['obligations'], r['summary'], r['queries'], r['solver_s'], r['wall_s'],
                 r['exhaustive'], (" INCONCLUSIVE(unknown)=%d" % inc) if inc else "",
                 (" INCONCLUSIVE(counterexample labels not reproduced on real code)=%d" % sp) if sp else ""))
+            for lb_, v_ in r['cex_labels'].items():
+                if v_['outcome'] != 'reproduced':
+                    print("      not reproduced: %s -> %s" % (lb_, str(v_.get('note'))[:400]))
+            if r.get('unknown_labels'):
+                print("      unknown by obligation: %s" % r['unknown_labels'])
     for e in harness_errors:
         print("HARNESS-ERROR property=%s %s" % (pid, e))
     print("[%s] tier=%s harnesses=%d paths=%d obligations=%d discharged=%d unknown=%d cex=%d (labels reproduced=%d, not reproduced=%d) "
